@@ -44,12 +44,15 @@ SCHEMA_A = ('<xs:schema xmlns:xs="%s" xmlns:t="urn:t" targetNamespace="urn:t" el
             '</xs:complexContent></xs:complexType>'
             '<xs:element name="h" type="t:B"/><xs:element name="m" type="t:E" substitutionGroup="t:h"/>'
             '<xs:element name="g" type="xs:int"/>'
+            '<xs:element name="bl" type="t:B" block="extension"/>'
+            '<xs:element name="fx" type="xs:anySimpleType" fixed="1.0"/>'
             '<xs:element name="root"><xs:complexType><xs:sequence><xs:element name="item" type="t:B" minOccurs="0" '
-            'maxOccurs="unbounded"/><xs:element ref="t:h" minOccurs="0" maxOccurs="unbounded"/><xs:element name="f" '
+            'maxOccurs="unbounded"/><xs:element ref="t:h" minOccurs="0" maxOccurs="unbounded"/><xs:element ref="t:bl" '
+            'minOccurs="0" maxOccurs="unbounded"/><xs:element ref="t:fx" minOccurs="0" maxOccurs="unbounded"/><xs:element name="f" '
             'type="xs:decimal" fixed="1.0" minOccurs="0"/><xs:any namespace="##other" processContents="lax" minOccurs="0" '
             'maxOccurs="unbounded"/></xs:sequence><xs:attribute name="id" type="xs:ID"/><xs:attribute name="ref" '
             'type="xs:IDREF"/><xs:anyAttribute namespace="##other" processContents="lax"/></xs:complexType>'
-            '<xs:key name="K"><xs:selector xpath="t:item|t:h|t:m"/><xs:field xpath="@k"/></xs:key>'
+            '<xs:key name="K"><xs:selector xpath="t:item|t:h|t:m|t:bl"/><xs:field xpath="@k"/></xs:key>'
             '<xs:unique name="U"><xs:selector xpath="t:item"/><xs:field xpath="@k2"/></xs:unique>'
             '</xs:element></xs:schema>' % XS)
 R = '<t:root xmlns:t="urn:t" xmlns:o="urn:o" %s' % XSI
@@ -64,6 +67,11 @@ DOCS_A = [
     R + '><t:item k="x"><t:v>y</t:v></t:item><t:zzz/></t:root>',
     '<t:root xmlns:t="urn:t"><t:item k="1">',
     R + '><t:item k="7"/><t:item k="8"/><t:h k="7"/></t:root>',
+    R + ' xmlns:xs="http://www.w3.org/2001/XMLSchema"><t:bl k="1" xsi:type="t:E"/></t:root>',
+    R + ' xmlns:xs="http://www.w3.org/2001/XMLSchema"><t:bl k="1"/><t:fx>1.00</t:fx></t:root>',
+    R + ' xmlns:xs="http://www.w3.org/2001/XMLSchema"><t:fx xsi:type="xs:decimal">1.00</t:fx></t:root>',
+    R + ' xmlns:xs="http://www.w3.org/2001/XMLSchema"><t:fx xsi:type="xs:string">1.00</t:fx><t:fx xsi:type="xs:double">1</t:fx></t:root>',
+    R + ' xmlns:xs="http://www.w3.org/2001/XMLSchema"><t:fx xsi:type="xs:string">1.0</t:fx><t:fx>1.0</t:fx></t:root>',
 ]
 SCHEMA_B = ('<xs:schema xmlns:xs="%s"><xs:complexType name="T0"><xs:sequence><xs:element name="a" type="xs:int" '
             'minOccurs="0" maxOccurs="3"/></xs:sequence><xs:attribute name="k" type="xs:string"/><xs:attribute name="n" '
